@@ -58,6 +58,13 @@ def cond_nojoin(**k):
     return [G("G0", ["C", "a", "a2", "b", "b2"], [("C", "a"), ("a", "a2"), ("C", "b"), ("b", "b2")], cond={"C": {"a": 0.5, "b": 0.5}}, **k)]
 
 
+def cond_fanbranch(**k):
+    # one branch is itself a fan-out of three parallel tasks that are fused again before the join
+    return [G("G0", ["C", "a", "x", "x1", "x2", "x3", "xf", "J"],
+              [("C", "a"), ("C", "x"), ("x", "x1"), ("x", "x2"), ("x", "x3"), ("x1", "xf"), ("x2", "xf"), ("x3", "xf"), ("a", "J"), ("xf", "J")],
+              cond={"C": {"a": 0.5, "x": 0.5}}, terminal=["J"], **k)]
+
+
 def cond_tail(**k):
     # conditional followed by work after the join
     return [G("G0", ["C", "a", "b", "J", "Z"], [("C", "a"), ("C", "b"), ("a", "J"), ("b", "J"), ("J", "Z")],
